@@ -1,7 +1,579 @@
-//! C07 — not built yet.
+//! C07 — linting is pure, deterministic and independent of scheduling.
+//!
+//! Part A (purity, in process): for corpus files / rule snippets / junk texts: the freshly parsed tree
+//! yields no patch (hypothesis `H_parse_patches`), a lint-only result has no patches and its
+//! `fix_string` is the newline-normalised source, repeated / fresh-linter runs give the same
+//! violations (`H_pure`), and the fix loop observed through the `cfg(sqruff_verif)` hook does what
+//! the Gallina `lint_fix_parsed false` predicts (group `lintloop`).
+//! Part B (scheduling, worker processes with RAYON_NUM_THREADS = 1, 4, 16): `lint_paths` on batches
+//! (subsets, permutations, directories, same content under different names) with reused and fresh
+//! `Linter`s, compared with `lint_string` per file; the `Sched` model is replayed on the recorded
+//! expansion lists (group `sched`); digests are compared across the worker processes.
+use std::cell::RefCell;
+use std::collections::{BTreeMap, HashMap};
+use std::io::Write as _;
+use std::path::{Path, PathBuf};
+use std::rc::Rc;
+
+use serde_json::{Value, json};
+use sqruff_lib::core::config::FluffConfig;
+use sqruff_lib::core::linter::core::{Linter, verif_hook};
+use sqruff_lib::core::rules::base::LintPhase;
+use sqruff_lib_core::errors::SQLBaseError;
+use sqruff_lib_core::parser::segments::base::Tables;
+
 use crate::common::*;
 
-pub fn main(_args: &Args) {
-    eprintln!("c07: not built yet");
-    std::process::exit(2);
+type Viol = (usize, usize, Option<String>, String);
+fn canon(vs: &[SQLBaseError]) -> Vec<Viol> {
+    vs.iter().map(|v| (v.line_no, v.line_pos, v.rule.as_ref().map(|r| r.code.to_string()), v.description.clone())).collect()
+}
+fn fnv(s: &str) -> u64 {
+    let mut h: u64 = 0xcbf29ce484222325;
+    for b in s.as_bytes() {
+        h ^= *b as u64;
+        h = h.wrapping_mul(0x100000001b3);
+    }
+    h
+}
+fn normalise(s: &str) -> String {
+    s.replace("\r\n", "\n").replace('\r', "\n")
+}
+fn mk_linter(dialect: &str) -> Linter {
+    Linter::new(FluffConfig::from_source(&format!("[sqruff]\ndialect = {}\n", dialect), None), None, None, false)
+}
+
+// ------------------------------------------------------------------ part A: purity
+struct Item {
+    cls: &'static str,
+    dialect: String,
+    name: String,
+    sql: String,
+}
+type Linters = HashMap<String, Linter>;
+
+#[derive(Clone, Debug)]
+enum Rec {
+    Start(usize, bool),
+    Batch(u8, usize, String, bool),
+    PassEnd(u8, usize, bool),
+    End(usize),
+}
+
+fn purity_one(ls: &mut Linters, it: &Item, out: &mut Buf) {
+    out.count("purity_files", 1);
+    let input = json!({"dialect":it.dialect,"sql":it.sql,"name":it.name});
+    if !ls.contains_key(&it.dialect) {
+        ls.insert(it.dialect.clone(), mk_linter(&it.dialect));
+    }
+    let linter = &ls[&it.dialect];
+    let sql = it.sql.as_str();
+    if sql.lines().any(|l| l.starts_with("-- sqlfluff")) {
+        out.count("skipped_inline_config", 1);
+        return;
+    }
+    let events: Rc<RefCell<Vec<Rec>>> = Rc::new(RefCell::new(vec![]));
+    let r = catch(|| {
+        // hypothesis: the parsed tree yields no patch
+        let tables = Tables::default();
+        let parsed = linter.parse_string(&tables, sql, None).unwrap();
+        let parse_patches = parsed.tree.as_ref().map(|t| t.iter_patches(&parsed.templated_file).len());
+        // lint-only run, observed through the fix-loop hook
+        let ev2 = events.clone();
+        verif_hook::FIX_HOOK.with(|h| {
+            *h.borrow_mut() = Some(Box::new(move |e| {
+                let rec = match e {
+                    verif_hook::FixEvent::Start { tree, fix } => Rec::Start(tree.addr(), fix),
+                    verif_hook::FixEvent::Batch { phase, pass, rule, accepted, .. } => Rec::Batch(if phase == LintPhase::Main { 0 } else { 1 }, pass, rule.to_string(), accepted),
+                    verif_hook::FixEvent::PassEnd { phase, pass, changed } => Rec::PassEnd(if phase == LintPhase::Main { 0 } else { 1 }, pass, changed),
+                    verif_hook::FixEvent::End { tree } => Rec::End(tree.addr()),
+                };
+                ev2.borrow_mut().push(rec);
+            }));
+        });
+        let a = linter.lint_string(sql, None, false);
+        verif_hook::FIX_HOOK.with(|h| *h.borrow_mut() = None);
+        let a_v = canon(&a.violations);
+        let fixable: Vec<String> = a.violations.iter().filter(|v| v.fixable).filter_map(|v| v.rule.as_ref().map(|r| r.code.to_string())).collect();
+        let a_patches = a.patches.len();
+        let a_fixed = a.fix_string();
+        // repeated run on the same linter, and a fresh linter
+        let b_v = canon(&linter.lint_string(sql, None, false).violations);
+        let fresh = mk_linter(&it.dialect);
+        let c_v = canon(&fresh.lint_string(sql, None, false).violations);
+        let rules: Vec<(String, u8, bool)> = linter.rules().iter().map(|r| (r.code().to_string(), if r.lint_phase() == LintPhase::Main { 0 } else { 1 }, r.is_fix_compatible())).collect();
+        (parse_patches, a_v, fixable, a_patches, a_fixed, b_v, c_v, rules)
+    });
+    verif_hook::FIX_HOOK.with(|h| *h.borrow_mut() = None);
+    let (parse_patches, a_v, fixable, a_patches, a_fixed, b_v, c_v, rules) = match r {
+        Ok(x) => x,
+        Err(_) => {
+            out.count("purity_panics_skipped (C03)", 1);
+            return;
+        }
+    };
+    let key = format!("{:x}", fnv(&format!("{}|{}", it.dialect, sql)) & 0xffffffffff);
+    if let Some(n) = parse_patches {
+        out.hyp("H_parse_patches (iter_patches of the freshly parsed tree is empty)", "blocking", n == 0, json!({"input":input,"patches":n}));
+    }
+    out.hyp("H_pure (same linter twice and a fresh linter give the same violations)", "blocking", a_v == b_v && a_v == c_v, json!({"input":input,"first":a_v,"second":b_v,"fresh":c_v}));
+    out.direct(it.cls, a_patches == 0, &format!("c07-lint-patches:{}", key), &format!("lint-only result carries {} patches", a_patches), input.clone());
+    let want = normalise(sql);
+    out.direct(it.cls, a_fixed == want, &format!("c07-lint-changes-text:{}", key), &format!("fix_string of a lint-only result differs from the normalised source: {:?} vs {:?}", trunc(&a_fixed, 200), trunc(&want, 200)), input.clone());
+    if sql.contains('\r') {
+        out.count("crlf_inputs", 1);
+    }
+    if !a_v.is_empty() {
+        out.count("purity_files_with_violations", 1);
+    }
+    // the loop trace
+    let evs = events.borrow().clone();
+    if evs.is_empty() {
+        out.count("no_tree (unparsable: loop not entered)", 1);
+        return;
+    }
+    let mut start = None;
+    let mut end = None;
+    let mut fixflag = None;
+    let mut trace: Vec<String> = vec![];
+    let rule_id = |code: &str| rules.iter().position(|r| r.0 == code).unwrap_or(9999);
+    for e in &evs {
+        match e {
+            Rec::Start(a, f) => {
+                start = Some(*a);
+                fixflag = Some(*f);
+            }
+            Rec::End(a) => end = Some(*a),
+            Rec::Batch(ph, pass, rule, acc) => trace.push(g_tuple(&["0".into(), ph.to_string(), pass.to_string(), rule_id(rule).to_string(), g_bool(*acc)])),
+            Rec::PassEnd(ph, pass, ch) => trace.push(g_tuple(&["1".into(), ph.to_string(), pass.to_string(), "0".into(), g_bool(*ch)])),
+        }
+    }
+    let mut fx: Vec<usize> = fixable.iter().map(|c| rule_id(c)).collect();
+    fx.sort();
+    fx.dedup();
+    let args = g_tuple(&[
+        g_bool(fixflag.unwrap_or(true)),
+        g_list(rules.iter().enumerate().map(|(i, r)| g_tuple(&[i.to_string(), r.1.to_string(), g_bool(r.2)]))),
+        g_list(fx.iter().map(|i| i.to_string())),
+    ]);
+    let exp = g_tuple(&[g_bool(start.is_some() && start == end), g_list(trace.clone())]);
+    out.case("lintloop", it.cls, !fx.is_empty(), args, exp, json!({"input":input,"events":format!("{:?}", evs),"fixable_rules":fixable}));
+}
+
+fn purity_items(args: &Args) -> Vec<Item> {
+    let mut items = vec![];
+    let mut rng = Rng::new(args.seed ^ 0x707);
+    let junk: &[(&str, &str)] = &[
+        ("empty", ""),
+        ("newline", "\n"),
+        ("no-trailing-newline", "select 1"),
+        ("crlf", "SELECT a\r\nFROM t\r\n"),
+        ("cr", "SELECT a\rFROM t\r"),
+        ("mixed", "SeLeCt  a ,b\r\nfrom t\n\n\n"),
+        ("unparsable", "SELECT FROM WHERE ((("),
+        ("junk", "@@ $$ \\ 'unterminated"),
+        ("comment", "-- just a comment\n"),
+        ("utf8", "SELECT 'h\u{e9}llo \u{1F600}'  AS x\n"),
+        ("tabs", "SELECT\ta,\tb\nFROM\tt\n"),
+        ("noqa", "SeLeCt  1 from tBl ; -- noqa: disable=all\nSeLeCt 2\n"),
+    ];
+    for (name, sql) in junk {
+        for d in ["ansi", "bigquery", "postgres"] {
+            items.push(Item { cls: "junk", dialect: d.to_string(), name: name.to_string(), sql: sql.to_string() });
+        }
+    }
+    let snippets = rule_snippets();
+    let n_snip = if args.thorough() { snippets.len() } else { 250.min(snippets.len()) };
+    let mut idx: Vec<usize> = (0..snippets.len()).collect();
+    rng.shuffle(&mut idx);
+    for &i in idx.iter().take(n_snip) {
+        items.push(Item { cls: "rule-snippet", dialect: "ansi".into(), name: snippets[i].0.clone(), sql: snippets[i].1.clone() });
+    }
+    let files = corpus();
+    let n_corpus = if args.thorough() { files.len() } else { 160.min(files.len()) };
+    let mut idx: Vec<usize> = (0..files.len()).collect();
+    rng.shuffle(&mut idx);
+    for &i in idx.iter().take(n_corpus) {
+        let f = &files[i];
+        if f.text.len() > 20000 {
+            continue;
+        }
+        items.push(Item { cls: "corpus", dialect: f.dialect.clone(), name: f.name.clone(), sql: f.text.clone() });
+        if i % 4 == 0 {
+            items.push(Item { cls: "corpus-crlf", dialect: f.dialect.clone(), name: f.name.clone(), sql: f.text.replace('\n', "\r\n") });
+        }
+    }
+    items
+}
+
+// ------------------------------------------------------------------ part B: scheduling
+const SNIPPETS: [&str; 10] = [
+    "SELECT a FROM t\n",
+    "SeLeCt  a from t\n",
+    "select a,b from t\n\n\n",
+    "SELECT a FROM t UNION SELECT b FROM u\n",
+    "SELECT col_a a FROM foo\n",
+    "SELECT a\r\nFROM t\r\n",
+    "",
+    "SELECT a FROM t WHERE ((\n",
+    "SELECT\n    a,\n    b\nFROM t\nWHERE a in (1,2)\n",
+    "select 1",
+];
+/// (relative path, snippet index): same content under different names, an upper-case extension, files
+/// the ignorer skips, a non-sql file.
+const TREE: [(&str, usize); 20] = [
+    ("top.sql", 1),
+    ("zz_last.sql", 3),
+    ("d1/a.sql", 1),
+    ("d1/b.sql", 2),
+    ("d1/c.SQL", 4),
+    ("d1/notes.txt", 0),
+    ("d1/m.sql", 8),
+    ("d2/a.sql", 1),
+    ("d2/e.sql", 5),
+    ("d2/empty.sql", 6),
+    ("d2/sub/f.sql", 7),
+    ("d2/sub/g.sql", 2),
+    ("d2/sub/deep/h.sql", 9),
+    ("d3/skip_i.sql", 1),
+    ("d3/j.sql", 0),
+    ("d3/k.sql", 3),
+    ("d3/skip_dir/l.sql", 4),
+    ("d4/n.sql", 8),
+    ("d4/o.sql", 2),
+    ("d4/p.sql", 1),
+];
+
+fn cache_dir() -> PathBuf {
+    if let Ok(t) = std::env::var("CARGO_TARGET_DIR") {
+        if let Some(p) = PathBuf::from(t).parent() {
+            return p.to_path_buf();
+        }
+    }
+    let exe = std::env::current_exe().unwrap();
+    exe.ancestors().nth(3).map(|p| p.to_path_buf()).unwrap_or_else(std::env::temp_dir)
+}
+fn ignorer(p: &Path) -> bool {
+    p.to_string_lossy().contains("skip")
+}
+fn is_sql(p: &str) -> bool {
+    p.to_lowercase().ends_with(".sql")
+}
+
+#[derive(Clone)]
+struct Batch {
+    cls: &'static str,
+    args: Vec<String>,
+}
+/// Distinct, non-overlapping path arguments: each top-level directory is given either as a whole,
+/// or through some of its files / sub-directories.
+fn gen_batch(rng: &mut Rng) -> Batch {
+    let files: Vec<&str> = TREE.iter().map(|x| x.0).collect();
+    let kind = rng.below(5);
+    let mut args: Vec<String> = vec![];
+    let cls;
+    match kind {
+        0 => {
+            cls = "all-files-permuted";
+            args = files.iter().filter(|f| is_sql(f)).map(|s| s.to_string()).collect();
+        }
+        1 => {
+            cls = "dirs-and-top-files";
+            args = vec!["d1".into(), "d2".into(), "d3".into(), "d4".into(), "top.sql".into(), "zz_last.sql".into()];
+        }
+        2 => {
+            cls = "file-subset";
+            for f in files.iter().filter(|f| is_sql(f)) {
+                if rng.chance(1, 2) {
+                    args.push(f.to_string());
+                }
+            }
+            if args.is_empty() {
+                args.push("top.sql".into());
+            }
+        }
+        _ => {
+            cls = "mixed";
+            for d in ["d1", "d2", "d3", "d4"] {
+                match rng.below(4) {
+                    0 => args.push(d.to_string()),
+                    1 => {}
+                    2 => {
+                        if d == "d2" {
+                            // the sub-directory and some of d2's own files
+                            args.push("d2/sub".into());
+                            for f in ["d2/a.sql", "d2/e.sql", "d2/empty.sql"] {
+                                if rng.chance(1, 2) {
+                                    args.push(f.to_string());
+                                }
+                            }
+                        } else {
+                            args.push(d.to_string());
+                        }
+                    }
+                    _ => {
+                        for f in files.iter().filter(|f| f.starts_with(&format!("{}/", d)) && is_sql(f)) {
+                            if rng.chance(1, 2) {
+                                args.push(f.to_string());
+                            }
+                        }
+                    }
+                }
+            }
+            for f in ["top.sql", "zz_last.sql"] {
+                if rng.chance(1, 2) {
+                    args.push(f.to_string());
+                }
+            }
+            if args.is_empty() {
+                args.push("d4".into());
+            }
+        }
+    }
+    rng.shuffle(&mut args);
+    Batch { cls, args }
+}
+fn batches(args: &Args) -> Vec<Batch> {
+    let mut rng = Rng::new(args.seed ^ 0x5c4ed);
+    let mut v = vec![
+        Batch { cls: "regression", args: vec!["d1".into(), "d2".into()] },
+        Batch { cls: "regression", args: vec!["d2/sub".into(), "d2/a.sql".into(), "d1/a.sql".into(), "d3".into()] },
+        Batch { cls: "regression", args: vec!["zz_last.sql".into(), "top.sql".into()] },
+    ];
+    for _ in 0..(if args.thorough() { 400 } else { 60 }) {
+        v.push(gen_batch(&mut rng));
+    }
+    v
+}
+
+fn sched_worker(args: &Args, threads: &str) {
+    let wd = cache_dir().join("c07-work").join(format!("{}-t{}", std::process::id(), threads));
+    let _ = std::fs::remove_dir_all(&wd);
+    std::fs::create_dir_all(&wd).unwrap();
+    std::env::set_current_dir(&wd).unwrap();
+    for (p, s) in TREE {
+        let path = wd.join(p);
+        std::fs::create_dir_all(path.parent().unwrap()).unwrap();
+        std::fs::write(&path, SNIPPETS[s]).unwrap();
+    }
+    let file_id = |p: &str| TREE.iter().position(|x| x.0 == p.trim_start_matches("./")).unwrap_or(9999);
+    // reference: lint_string of each file's content with a fresh linter each
+    let mut res_ids: HashMap<Vec<Viol>, usize> = HashMap::new();
+    let mut reference: BTreeMap<usize, (usize, Vec<Viol>)> = BTreeMap::new();
+    for (i, (p, s)) in TREE.iter().enumerate() {
+        let l = mk_linter("ansi");
+        let v = catch(|| canon(&l.lint_string(SNIPPETS[*s], Some(p.to_string()), false).violations)).unwrap_or_else(|_| vec![(0, 0, None, "PANIC".into())]);
+        let n = res_ids.len();
+        let id = *res_ids.entry(v.clone()).or_insert(n);
+        reference.insert(i, (id, v));
+    }
+    let bs: Vec<Batch> = if let Some(one) = args.flag("--one-batch") {
+        vec![Batch { cls: "replay", args: one.split(',').map(|s| s.to_string()).collect() }]
+    } else {
+        batches(args)
+    };
+    let f = std::fs::File::create(&args.out).unwrap();
+    let mut wr = std::io::BufWriter::new(f);
+    let mut reused = mk_linter("ansi");
+    let mut reordered = 0usize;
+    for (bi, b) in bs.iter().enumerate() {
+        let input = json!({"batch":b.args,"threads":threads});
+        // expansion lists (hook) and ignored ids
+        let probe = mk_linter("ansi");
+        let exps: Vec<Vec<usize>> = b.args.iter().map(|a| {
+            if Path::new(a).is_file() { vec![file_id(a)] } else { probe.verif_paths_from_path(PathBuf::from(a)).iter().map(|p| file_id(p)).collect() }
+        }).collect();
+        let ignored: Vec<usize> = TREE.iter().enumerate().filter(|(_, x)| ignorer(Path::new(x.0))).map(|(i, _)| i).collect();
+        let selected: Vec<usize> = exps.iter().flatten().copied().filter(|i| !ignored.contains(i)).collect();
+        let mut digests = vec![];
+        for run in 0..3 {
+            // run 0, 1: the reused linter; run 2: a fresh linter
+            let mut fresh;
+            let linter: &mut Linter = if run == 2 {
+                fresh = mk_linter("ansi");
+                &mut fresh
+            } else {
+                &mut reused
+            };
+            let paths: Vec<PathBuf> = b.args.iter().map(PathBuf::from).collect();
+            let r = catch(|| {
+                let res = linter.lint_paths(paths, false, &ignorer);
+                res.paths.iter().map(|d| (d.path.clone(), d.files.iter().map(|f| {
+                    let v = canon(&f.violations);
+                    let np = f.patches.len();
+                    (f.path.clone(), v, np)
+                }).collect::<Vec<_>>())).collect::<Vec<_>>()
+            });
+            let dirs = match r {
+                Ok(d) => d,
+                Err(m) => {
+                    writeln!(wr, "{}", json!({"t":"dfail","cls":b.cls,"key":"c07-lint-paths-panic","msg":format!("lint_paths panicked: {}", m),"input":input})).unwrap();
+                    continue;
+                }
+            };
+            let mut fails: Vec<(String, String)> = vec![];
+            let mut seen: HashMap<usize, usize> = HashMap::new();
+            let mut observed: Vec<Vec<(usize, usize)>> = vec![];
+            let mut dig: Vec<(String, u64)> = vec![];
+            for (di, (dpath, files)) in dirs.iter().enumerate() {
+                if di >= b.args.len() || *dpath != b.args[di] {
+                    fails.push(("c07-dir-order".into(), format!("directory {} of the result is {:?}, argument is {:?}", di, dpath, b.args.get(di))));
+                }
+                let mut bucket = vec![];
+                for (p, v, np) in files {
+                    let id = file_id(p);
+                    *seen.entry(id).or_default() += 1;
+                    let rid = match reference.get(&id) {
+                        Some((rid, rv)) if rv == v => *rid,
+                        Some((_, rv)) => {
+                            fails.push((format!("c07-differs-from-lint-string:{}", p), format!("{}: lint_paths reports {:?}, lint_string reports {:?}", p, v, rv)));
+                            8888
+                        }
+                        None => 9999,
+                    };
+                    if *np != 0 {
+                        fails.push((format!("c07-lint-patches:{}", p), format!("{}: lint-only result carries {} patches", p, np)));
+                    }
+                    if di < exps.len() && !exps[di].contains(&id) {
+                        fails.push((format!("c07-wrong-dir:{}", p), format!("{} stored under argument {:?}", p, dpath)));
+                    }
+                    bucket.push((id, rid));
+                    dig.push((p.clone(), fnv(&format!("{:?}", v))));
+                }
+                observed.push(bucket);
+            }
+            for s in &selected {
+                let n = seen.get(s).copied().unwrap_or(0);
+                if n != 1 {
+                    fails.push((format!("c07-not-exactly-once:{}", TREE.get(*s).map(|x| x.0).unwrap_or("?")), format!("selected file {} appears {} times in the result", TREE.get(*s).map(|x| x.0).unwrap_or("?"), n)));
+                }
+            }
+            for (id, _) in &seen {
+                if !selected.contains(id) {
+                    fails.push((format!("c07-unselected:{}", id), format!("file {:?} was not selected but appears in the result", TREE.get(*id).map(|x| x.0))));
+                }
+            }
+            writeln!(wr, "{}", json!({"t":"dcount","n":1})).unwrap();
+            for (key, msg) in &fails {
+                writeln!(wr, "{}", json!({"t":"dfail","cls":b.cls,"key":key,"msg":msg,"input":input})).unwrap();
+            }
+            let order: Vec<usize> = observed.iter().flatten().map(|x| x.0).collect();
+            if order != selected {
+                reordered += 1;
+            }
+            let g_args = g_tuple(&[
+                g_list(exps.iter().map(|e| g_list(e.iter().map(|i| i.to_string())))),
+                g_list(ignored.iter().map(|i| i.to_string())),
+                g_list(reference.iter().map(|(i, (rid, _))| g_tuple(&[i.to_string(), rid.to_string()]))),
+                g_list(order.iter().map(|i| i.to_string())),
+            ]);
+            let g_exp = g_list(observed.iter().map(|b| g_list(b.iter().map(|(i, r)| g_tuple(&[i.to_string(), r.to_string()])))));
+            let multi = b.args.len() > 1 && selected.len() > 2;
+            let run_name = ["reused", "reused-again", "fresh"][run];
+            writeln!(wr, "{}", json!({"t":"wcase","group":"sched","cls":b.cls,"nontrivial":multi,"args":g_args,"exp":g_exp,
+                "sample":{"input":input,"run":run_name,"expansions":exps,"observed":observed}})).unwrap();
+            dig.sort();
+            digests.push(fnv(&format!("{:?}", dig)));
+        }
+        writeln!(wr, "{}", json!({"t":"digest","batch":bi,"args":b.args,"runs":digests})).unwrap();
+    }
+    writeln!(wr, "{}", json!({"t":"wstat","threads":threads,"batches":bs.len(),"runs_with_completion_order_different_from_expansion_order":reordered})).unwrap();
+    writeln!(wr, "{}", json!({"t":"wdone"})).unwrap();
+    wr.flush().unwrap();
+    let _ = std::env::set_current_dir("/");
+    let _ = std::fs::remove_dir_all(&wd);
+}
+
+pub fn main(args: &Args) {
+    silence_panics();
+    if let Some(t) = args.flag("--sched-worker") {
+        sched_worker(args, &t);
+        return;
+    }
+    let mut out = Out::new(&args.out);
+    let mut thread_counts: Vec<String> = vec!["1".into(), "4".into(), "16".into()];
+    let mut one_batch: Option<String> = None;
+    let mut run_purity = true;
+    let mut run_sched = true;
+    let mut items = vec![];
+    if let Some(path) = args.flag("--replay-input") {
+        let v: Value = serde_json::from_str(&std::fs::read_to_string(path).unwrap()).unwrap();
+        let v = if v.get("input").is_some() { v["input"].clone() } else { v };
+        if let Some(b) = v.get("batch").and_then(|b| b.as_array()) {
+            one_batch = Some(b.iter().map(|x| x.as_str().unwrap_or("").to_string()).collect::<Vec<_>>().join(","));
+            if let Some(t) = v.get("threads").and_then(|t| t.as_str()) {
+                thread_counts = vec![t.to_string()];
+            }
+            run_purity = false;
+        } else {
+            items.push(Item { cls: "replay", dialect: v["dialect"].as_str().unwrap_or("ansi").to_string(), name: "replay".into(), sql: v["sql"].as_str().unwrap_or("").to_string() });
+            run_sched = false;
+        }
+    } else {
+        items = purity_items(args);
+    }
+    // part B first (separate processes), so that they overlap with part A
+    let exe = std::env::current_exe().unwrap();
+    let tmp = cache_dir().join("c07-work");
+    std::fs::create_dir_all(&tmp).unwrap();
+    let mut children = vec![];
+    if run_sched {
+        for t in &thread_counts {
+            let wout = tmp.join(format!("{}-worker-{}.jsonl", std::process::id(), t));
+            let mut cmd = std::process::Command::new(&exe);
+            cmd.arg("c07").arg("--tier").arg(&args.tier).arg("--seed").arg(args.seed.to_string()).arg("--out").arg(&wout).arg("--sched-worker").arg(t);
+            if let Some(b) = &one_batch {
+                cmd.arg("--one-batch").arg(b);
+            }
+            cmd.env("RAYON_NUM_THREADS", t);
+            children.push((t.clone(), cmd.spawn().expect("spawn worker"), wout));
+        }
+    }
+    if run_purity {
+        par_run(&mut out, &items, Linters::new, purity_one);
+    }
+    let mut digests: BTreeMap<u64, Vec<(String, Vec<u64>, Value)>> = BTreeMap::new();
+    let mut ok_workers = 0;
+    let nworkers = children.len();
+    for (t, mut ch, wout) in children {
+        let status = ch.wait().expect("wait");
+        let text = std::fs::read_to_string(&wout).unwrap_or_default();
+        let _ = std::fs::remove_file(&wout);
+        let mut buf = Buf::default();
+        let mut done = false;
+        let mut extra_direct = 0usize;
+        for l in text.lines() {
+            let Ok(v) = serde_json::from_str::<Value>(l) else { continue };
+            match v["t"].as_str().unwrap_or("") {
+                "wcase" => buf.case(v["group"].as_str().unwrap_or(""), v["cls"].as_str().unwrap_or(""), v["nontrivial"].as_bool().unwrap_or(false), v["args"].as_str().unwrap_or("").to_string(), v["exp"].as_str().unwrap_or("").to_string(), v["sample"].clone()),
+                "dfail" => buf.direct(v["cls"].as_str().unwrap_or(""), false, v["key"].as_str().unwrap_or(""), v["msg"].as_str().unwrap_or(""), v["input"].clone()),
+                "dcount" => extra_direct += 1,
+                "digest" => digests.entry(v["batch"].as_u64().unwrap_or(0)).or_default().push((t.clone(), v["runs"].as_array().unwrap().iter().map(|x| x.as_u64().unwrap_or(0)).collect(), v["args"].clone())),
+                "wstat" => out.stat(v.clone()),
+                "wdone" => done = true,
+                _ => {}
+            }
+        }
+        for _ in 0..extra_direct {
+            buf.direct("lint_paths-run", true, "", "", Value::Null);
+        }
+        out.absorb(buf);
+        if status.success() && done {
+            ok_workers += 1;
+        }
+    }
+    // across runs, linters, thread counts and processes: identical per-file violation lists
+    let mut buf = Buf::default();
+    for (b, ds) in &digests {
+        let all: Vec<u64> = ds.iter().flat_map(|d| d.1.iter().copied()).collect();
+        let same = all.windows(2).all(|w| w[0] == w[1]);
+        let input = json!({"batch":ds[0].2,"threads":ds.iter().map(|d| d.0.clone()).collect::<Vec<_>>().join("/")});
+        buf.direct("cross-run-digest", same, &format!("c07-nondeterministic-batch:{}", b), &format!("batch {:?}: results differ across runs / linters / thread counts: {:?}", ds[0].2, ds), input);
+    }
+    out.absorb(buf);
+    if ok_workers != nworkers {
+        eprintln!("c07: {} of {} scheduling workers failed", nworkers - ok_workers, nworkers);
+        std::process::exit(3);
+    }
+    out.finish();
 }
